@@ -183,12 +183,17 @@ class ContractAPI(object):
         m = opcode + (1 - OP_1)
         sec_keys = []
         while pc < len(script):
+            start = pc
             opcode, data, pc, is_ok = scriptStreamer.get_opcode(script, pc)
             size = len(data) if data else 0
             if size < 33 or size > 120:
                 break
+            if script[start:pc] != scriptStreamer.compile_push_data(data):
+                return None
             sec_keys.append(data)
         if pc >= len(script):
+            return None
+        if not OP_1 <= opcode <= OP_16:
             return None
         n = opcode + (1 - OP_1)
         if m > n or len(sec_keys) != n:
